@@ -71,7 +71,8 @@ fn roundtrip(text: &[u8], obs: &mut Obs) -> Result<(), String> {
                     );
                     // `last+-2147483648` is LastIndex(i32::MIN); it prints as `last-2147483648`,
                     // whose magnitude no longer fits the i32 the grammar reads after `last -`
-                    if format!("{ast:?}").contains("Last(-2147483648)") && printed.contains("last-2147483648") {
+                    let dbg = format!("{ast:?}");
+                    if (dbg.contains("Last(-2147483648)") || dbg.contains("LastIndex(-2147483648)")) && printed.contains("last-2147483648") {
                         return crate::known::tolerate("C09", "F24", obs, msg);
                     }
                     return Err(msg);
